@@ -11,6 +11,12 @@ NA = {
 }
 
 CLAIMS = {
+ "C14": dict(design="§2 C14", technique="emission/consumption automata: encoder and decoder SSA CFGs as NFAs over wire tokens, language inclusion by subset construction; constant agreement of the varint pair",
+   text="Decides that GobEncode and GobDecode agree on the kind (varint vs raw byte) and order of every field of every record, for every automaton shape: L(encoder) ⊆ L(decoder) over tokens extracted from the code itself; plus nine constant relations between encodeUint64 and decodeUint64 (threshold 127, prefix base, length cap, byte order). Does not decide behavioural identity of the decoded automaton.",
+   note="Regular approximation: element counts are not compared; unrecognised output primitives are 'undecided' and fail."),
+ "C18": dict(design="§2 C18", technique="SSA store-pattern rules on the parent-forest representation (ROOTLINK, COMPRESS) + E-EFF write scope",
+   text="Decides two representation-level necessary conditions for every history: unions only ever link one Find result to the other or bump the surviving root's rank, and lookups only ever write the representative they return; lookups/Roots write nothing else. Does not decide the partition itself.",
+   note="Find returns a root (value-level, not decided); a correct path-halving variant would be reported."),
  "C16": dict(design="§2 C16", technique="constant-table extraction checked with math/big against the arithmetic definition + SSA loop-shape recognition + E-PROVE overflow obligations",
    text="Decides 'exact or refuse, and refuse no earlier than necessary' for CoeffUint64/Coeff: all 289 Pascal cells and all 30 overflow thresholds are checked against their definition (k*C(T,k) <= 2^64-1 < k*C(T+1,k)), and the code is checked to have the loop shape and dominating guards those bounds are about; every other product/sum/unsigned difference in package comb must be bounded by the prover or be a checked-arithmetic idiom (no silent wrap in Coeffs, Rank, Unrank). Does not decide that Rank/Unrank are inverse.",
    note="64-bit int/uint; math/big; the largest intermediate of acc*=(n-k+i); acc/=i is k*C(n,k) (argued in DESIGN.md)."),
